@@ -773,6 +773,12 @@ func (w *speller) quoteRune(sb *strings.Builder, c rune, next rune) {
 			}
 		}
 	}
+	if (c < 0x20 || c == 0x7f) && c != '\n' && c != '\r' && w.st.lex() && w.st.coin(4) {
+		// escapes "may be used": a control character other than a line
+		// terminator can also stand for itself inside the quotes
+		sb.WriteRune(c)
+		return
+	}
 	if e, ok := simpleEsc[c]; ok {
 		sb.WriteString(e)
 		return
